@@ -525,6 +525,10 @@ static int reftable_obj_record_decode(void *rec, struct strbuf key,
 	int n = 0;
 	uint64_t last;
 	int j;
+	/* the record may hold the previous entry of the block */
+	FREE_AND_NULL(r->hash_prefix);
+	FREE_AND_NULL(r->offsets);
+	r->offset_len = 0;
 	r->hash_prefix = reftable_malloc(key.len);
 	memcpy(r->hash_prefix, key.buf, key.len);
 	r->hash_prefix_len = key.len;
